@@ -25,7 +25,7 @@ EXTENDS Integers, Sequences, FiniteSets, TLC, Json, IOUtils
 CONSTANT STRICT
 Trace == ndJsonDeserialize(IOEnv.VERIF_TRACE)
 MaxP == 4
-MaxG == 400
+MaxG == 2500
 MaxL == 4
 
 VARIABLES l, cfgSem, nAds, pending, asyncH, syncH, semCnt, latest, reported, took, cur, inEv, dlist, expect, regFlight, rmFlight,
@@ -51,7 +51,7 @@ Keep(vs) == UNCHANGED vs
 Reset == Is("reset") /\ cfgSem' = Ev.n /\ nAds' = Ev.c /\ cfgSeg' = Ev.g /\ Fresh       \* g: the segment depth limit of this run (0: none)
 
 (* events without a state change *)
-Skips == {"w.next", "i.tick", "x.wait", "env.nested", "d.select", "g.entry", "h.prelock", "env.xcancel", "env.announce.ret", "env.explicit",
+Skips == {"w.next", "i.tick", "x.wait", "env.nested", "env.announce.denied", "d.select", "g.entry", "h.prelock", "env.xcancel", "env.announce.ret", "env.explicit",
           "e.enter", "l.preadd", "l.added", "l.prerm", "env.cancel.ret", "env.close", "c.expclosed",
           "c.expdone", "c.watchdone", "c.asyncdone", "c.inclosed", "final.end"}
 Skip == /\ l <= Len(Trace) /\ Ev.ev \in Skips /\ l' = l + 1
